@@ -41,6 +41,21 @@ func checkNewState(p *load.Program, r *kit.Report, rule, key, pkg, typ string, r
 		kit.AllInstrs(f, func(in ssa.Instruction) {
 			if fa, ok := in.(*ssa.FieldAddr); ok {
 				if fl, _ := kit.FieldOfAddr(fa); fl != nil && isNew[fl] {
+					if diagnosticOnly(fa, func(addr ssa.Value) bool {
+						for i := 0; i < 8; i++ {
+							a, ok := addr.(*ssa.FieldAddr)
+							if !ok {
+								return false
+							}
+							if f2, _ := kit.FieldOfAddr(a); f2 != nil && isNew[f2] {
+								return true
+							}
+							addr = a.X
+						}
+						return false
+					}) {
+						return // counters/statistics: never used for an answer
+					}
 					for _, ref := range *fa.Referrers() {
 						if u, ok := ref.(*ssa.UnOp); ok && u.Op.String() == "*" {
 							read[fl] = true
@@ -162,4 +177,102 @@ func checkNewState(p *load.Program, r *kit.Report, rule, key, pkg, typ string, r
 		}
 	}
 	r.Check(bad == "", rule, key, "-", "new state read by the queries is refreshed by every mutator of the underlying data", bad)
+}
+
+// diagnosticOnly reports whether the field address fa is used for bookkeeping only: it is stored
+// to, and whatever is loaded from it flows (through arithmetic, conversions and phis) only into
+// stores to addresses for which isDiag holds, or into a comparison that guards nothing but such
+// stores (`if size > s.largest { s.largest = size }`). A field used this way cannot influence a
+// result.
+func diagnosticOnly(fa *ssa.FieldAddr, isDiag func(addr ssa.Value) bool) bool {
+	seen := map[ssa.Value]bool{}
+	var feeds func(v ssa.Value) bool
+	sideBlockOK := func(b *ssa.BasicBlock) bool {
+		for _, in := range b.Instrs {
+			switch x := in.(type) {
+			case *ssa.FieldAddr, *ssa.BinOp, *ssa.Convert, *ssa.Jump, *ssa.DebugRef:
+			case *ssa.UnOp:
+			case *ssa.Store:
+				if !isDiag(x.Addr) {
+					return false
+				}
+			default:
+				return false
+			}
+		}
+		return true
+	}
+	ifOK := func(iff *ssa.If) bool {
+		b := iff.Block()
+		s0, s1 := b.Succs[0], b.Succs[1]
+		tri := func(side, other *ssa.BasicBlock) bool {
+			return len(side.Preds) == 1 && len(side.Succs) == 1 && side.Succs[0] == other && sideBlockOK(side)
+		}
+		if tri(s0, s1) || tri(s1, s0) {
+			return true
+		}
+		// diamond: both sides only book-keep and meet again
+		return len(s0.Preds) == 1 && len(s1.Preds) == 1 && len(s0.Succs) == 1 && len(s1.Succs) == 1 && s0.Succs[0] == s1.Succs[0] && sideBlockOK(s0) && sideBlockOK(s1)
+	}
+	feeds = func(v ssa.Value) bool {
+		if seen[v] {
+			return true
+		}
+		seen[v] = true
+		if v.Referrers() == nil {
+			return true
+		}
+		for _, ref := range *v.Referrers() {
+			switch x := ref.(type) {
+			case *ssa.BinOp:
+				if !feeds(x) {
+					return false
+				}
+			case *ssa.Convert:
+				if !feeds(x) {
+					return false
+				}
+			case *ssa.ChangeType:
+				if !feeds(x) {
+					return false
+				}
+			case *ssa.Phi:
+				if !feeds(x) {
+					return false
+				}
+			case *ssa.Store:
+				if x.Val != v || !isDiag(x.Addr) {
+					return false
+				}
+			case *ssa.If:
+				if !ifOK(x) {
+					return false
+				}
+			case *ssa.DebugRef:
+			default:
+				return false
+			}
+		}
+		return true
+	}
+	for _, ref := range *fa.Referrers() {
+		switch x := ref.(type) {
+		case *ssa.Store:
+			if x.Addr != ssa.Value(fa) {
+				return false
+			}
+		case *ssa.UnOp:
+			if !feeds(x) {
+				return false
+			}
+		case *ssa.FieldAddr:
+			if !diagnosticOnly(x, isDiag) {
+				return false
+			}
+		case *ssa.DebugRef:
+		default:
+			return false
+		}
+	}
+	return true
 }
